@@ -155,6 +155,87 @@ def _is_tainted(expr, names):
     return False
 
 
+
+def _presence_norm(fnode, mapname):
+    """``x = M.get(k)`` + ``x is [not] None`` is the presence test
+    ``k [not] in M`` when nothing stores None in M (the stores in
+    process_method put the descriptor there, which was dereferenced before):
+    rewrite it to that form, and the other reads of x to ``M[k]``."""
+    from ..core import set_parents
+    if getattr(fnode, '_presence_done', None) == mapname:
+        return
+    fnode._presence_done = mapname
+    stores = {}
+    lines = {}
+    for n in walk_no_defs(fnode):
+        if isinstance(n, ast.Name) and isinstance(n.ctx, ast.Store):
+            stores[n.id] = stores.get(n.id, 0) + 1
+            lines.setdefault(n.id, []).append(n.lineno)
+    cands = {}
+    for n in walk_no_defs(fnode):
+        if isinstance(n, ast.Assign) and len(n.targets) == 1 and isinstance(
+                n.targets[0], ast.Name) and isinstance(n.value, ast.Call) \
+                and call_name(n.value) == 'get' and isinstance(
+                    n.value.func, ast.Attribute) and unparse(
+                    n.value.func.value).endswith(mapname) and \
+                not n.value.keywords and (len(n.value.args) == 1 or (
+                    len(n.value.args) == 2 and isinstance(
+                        n.value.args[1], ast.Constant) and
+                    n.value.args[1].value is None)) and isinstance(
+                    n.value.args[0], ast.Name) and \
+                n in fnode.body and \
+                n.targets[0].id not in cands and \
+                stores.get(n.value.args[0].id, 0) <= 1:
+            # the value is the one read up to the next store of the name
+            later = [l for l in lines[n.targets[0].id] if l > n.lineno]
+            cands[n.targets[0].id] = (n, n.value.func.value, n.value.args[0],
+                                      n.lineno, min(later) if later
+                                      else 10 ** 9)
+    if not cands:
+        return
+    import copy
+
+    def live(name):
+        c = cands.get(name.id)
+        return c is not None and c[3] < name.lineno < c[4]
+
+    class T(ast.NodeTransformer):
+        def visit_Compare(self, node):
+            if isinstance(node.left, ast.Name) and live(node.left) \
+                    and len(node.ops) == 1 and isinstance(
+                        node.ops[0], (ast.Is, ast.IsNot)) and isinstance(
+                        node.comparators[0], ast.Constant) and \
+                    node.comparators[0].value is None:
+                st, m, k = cands[node.left.id][:3]
+                new = ast.Compare(
+                    left=copy.deepcopy(k),
+                    ops=[ast.NotIn() if isinstance(node.ops[0], ast.Is)
+                         else ast.In()], comparators=[copy.deepcopy(m)])
+                return ast.copy_location(new, node)
+            return self.generic_visit(node)
+
+        def visit_Name(self, node):
+            if live(node) and isinstance(node.ctx, ast.Load):
+                st, m, k = cands[node.id][:3]
+                new = ast.Subscript(value=copy.deepcopy(m),
+                                    slice=copy.deepcopy(k), ctx=ast.Load())
+                ast.copy_location(new, node)
+                ast.fix_missing_locations(new)
+                return new
+            return node
+
+        def visit_Assign(self, node):
+            for cand in cands.values():
+                if node is cand[0]:
+                    return ast.copy_location(ast.Pass(), node)
+            return self.generic_visit(node)
+    up = getattr(fnode, '_parent', None)
+    T().visit(fnode)
+    ast.fix_missing_locations(fnode)
+    set_parents(fnode)
+    fnode._parent = up
+
+
 def rule_r1(prog, res, tier):
     res.rule('R1', 'the request name reaches the routing lookup unmodified')
     proto = prog.cls('spyne.protocol._base:ProtocolMixin')
@@ -370,6 +451,7 @@ def rule_r2(prog, res):
     pm = itfc.methods.get('process_method')
     if pm is None:
         raise AnalysisError('Interface.process_method', 'not found')
+    _presence_norm(pm.node, 'method_id_map')
     # the if-chain on val
     chain = None
     for n in walk_no_defs(pm.node):
@@ -818,6 +900,7 @@ def rule_r8(prog, res):
     f = itf.methods.get('process_method')
     if f is None:
         raise AnalysisError('Interface.process_method', 'not found')
+    _presence_norm(f.node, 'method_id_map')
     # the "already registered" branch
     branches = [n for n in walk_no_defs(f.node) if isinstance(n, ast.If) and
                 any(isinstance(c, ast.Compare) and isinstance(
